@@ -87,7 +87,9 @@ class Oracle(simcheck.BaseOracle):
                     if pre["placed"] is not None and pre["placed"] < order.trade.place_reset_seconds:
                         self.add("cool-down-ignored", "strategy %d runner %s: order accepted %.3fs after the last placement, place_reset_seconds %s" % (
                             sidx, order.lookup, pre["placed"], order.trade.place_reset_seconds))
-                    elif pre.get("placed_own") is not None and pre["placed_own"] < order.trade.place_reset_seconds:
+                    elif pre["placed"] is not None and pre.get("placed_own") is not None and pre["placed_own"] < order.trade.place_reset_seconds:
+                        # (only for a context that knows of a placement: a context created afresh - market removed and seen again -
+                        # legitimately starts without one)
                         self.add("cool-down-ignored", "strategy %d runner %s: order accepted %.3fs after the last placement on the runner (own record; the "
                                  "context's datetime_last_placed is %s s old), place_reset_seconds %s" % (
                                      sidx, order.lookup, pre["placed_own"], pre["placed"], order.trade.place_reset_seconds))
